@@ -156,7 +156,7 @@ fn chk_bit_conv() -> (u64, Vec<Mis>) {
         n += 1;
         let exp = if val != 0 { Bit::One } else { Bit::Zero };
         if got != exp {
-            v.push(mis(&format!("Bit::from({}:{})", name, val), exp, got));
+            v.push(Mis { what: format!("Bit::from({})", name), expected: format!("{:?} for {}", exp, val), observed: format!("{:?}", got) });
         }
     };
     for x in 0..=u8::MAX {
